@@ -79,7 +79,10 @@ impl Affiliate {
         self.0.registered
     }
     pub fn is_default(&self) -> bool {
-        self.id().starts_with("default")
+        // The default affiliate or its registered counterpart. Compare the whole
+        // id: a prefix test would also match e.g. an affiliate named "Defaulted".
+        let id = self.id();
+        id == "default" || id == "default (R)"
     }
 
     // Special transactions (such as splits) may specify the global affiliate,
